@@ -9,7 +9,7 @@ here in Python, independently of the Go harness.
 
   tools/crosscheck_real.py [N]     builds dcat/dgrep from /repo into a scratch
                                    dir, runs N random cases each, prints a summary,
-                                   writes evidence/crosscheck_real.json, exit 1 on mismatch
+                                   writes crosscheck_real.json, exit 1 on mismatch
 """
 import json, os, random, re, shutil, subprocess, sys, tempfile
 
@@ -132,8 +132,7 @@ def main():
             else:
                 ok3 += 1
         res = {"cases_per_check": ncases, "c01_agree": ok1, "c03_agree": ok3, "disagreements": bad[:10]}
-        os.makedirs(os.path.join(VERIF, "evidence"), exist_ok=True)
-        json.dump(res, open(os.path.join(VERIF, "evidence", "crosscheck_real.json"), "w"), indent=1)
+        json.dump(res, open(os.path.join(VERIF, "crosscheck_real.json"), "w"), indent=1)
         print("crosscheck_real: C01 %d/%d agree, C03 %d/%d agree" % (ok1, ncases, ok3, ncases))
         for b in bad[:5]:
             print("  DISAGREE", json.dumps(b)[:300])
